@@ -297,6 +297,13 @@ def _err(e):
     return "ERR:" + type(e).__name__
 
 
+def _seq_tokens_safe(entry):
+    try:
+        return _seq_tokens(entry)
+    except Exception as e:  # noqa: BLE001
+        return "!" + type(e).__name__
+
+
 class _NucA:
     """Converter for NucleotideSequence / ProteinSequence registers."""
     letter = True
@@ -342,7 +349,7 @@ def run_impl(case):
 
     def push(s, a, fmt=None):
         regs.append((s, a))
-        txt = _seq_tokens((s, a))
+        txt = _seq_tokens_safe((s, a))
         return "ok " + (fmt(s, txt) if fmt else txt)
 
     def do(w):
@@ -392,7 +399,7 @@ def run_impl(case):
                 return "ok " + a.show1(s[int(w[2])])
             if op == "s_set":
                 s[int(w[2])] = a.sym(w[3])
-                return "ok " + _seq_tokens((s, a))
+                return "ok " + _seq_tokens_safe((s, a))
             if op == "s_slice":
                 lo = None if w[2] == "-" else int(w[2])
                 hi = None if w[3] == "-" else int(w[3])
@@ -401,7 +408,7 @@ def run_impl(case):
                 lo = None if w[2] == "-" else int(w[2])
                 hi = None if w[3] == "-" else int(w[3])
                 s[lo:hi] = a.syms(_ptoks(w[4]))
-                return "ok " + _seq_tokens((s, a))
+                return "ok " + _seq_tokens_safe((s, a))
             if op == "s_rev":
                 return push(s.reverse(), a)
             if op == "s_copy":
@@ -410,7 +417,7 @@ def run_impl(case):
                 return push(s.complement(), a)
             if op == "s_setcode":
                 s.code = arr(w[2], _pints(w[3]))
-                return "ok " + _seq_tokens((s, a))
+                return "ok " + _seq_tokens_safe((s, a))
         if op in ("s_add", "s_eq"):
             i, j = int(w[1]), int(w[2])
             if i >= len(regs) or j >= len(regs):
